@@ -4,8 +4,8 @@ from kappadata.utils.distributed import get_rank, get_world_size
 class SamplerBase:
     def __init__(self, rank=None, world_size=None):
         super().__init__()
-        self.rank = rank or get_rank()
-        self.world_size = world_size or get_world_size()
+        self.rank = get_rank() if rank is None else rank
+        self.world_size = get_world_size() if world_size is None else world_size
         self.epoch = 0
 
     @property
